@@ -389,6 +389,10 @@ def _conclude(check, pid, tier, seed, records, failed_shards, t0, verbose, resta
         inconclusive.append('floors not met: ' + ', '.join(f'{k}={a}<{m}' for k, (a, m) in missing.items()))
     if n == 0:
         inconclusive.append('no case ran')
+    crashed = [i for i in incs if 'harness exception' in i['reason'] or 'thread error' in i['reason']]
+    if len(crashed) > max(3, n // 2000):
+        inconclusive.append(f'{len(crashed)} cases could not be judged because the harness/oracle failed on them: '
+                            + crashed[0]['reason'][:200])
     coverage = {
         'evaluations': n,
         'distinct_nontrivial': len(digests),
